@@ -132,6 +132,10 @@ def case_for(chk, verif_seed, index, tier):
     return case
 
 
+class Flaky(Exception):
+    pass
+
+
 def shrink_violation(chk, case, viol):
     from sim import shrink
 
@@ -145,10 +149,12 @@ def shrink_violation(chk, case, viol):
     small, ntests = shrink.shrink_case(case, still_fails, list_paths, simplifiers, max_tests=getattr(chk, "SHRINK_BUDGET", 300))
     r = chk.execute(small, keep_log=True)
     vs = [v for v in r.violations if vclass(v) == target]
-    if not vs:  # should not happen; fall back to the unshrunk case
+    if not vs:  # fall back to the unshrunk case
         small = case
         r = chk.execute(small, keep_log=True)
-        vs = [v for v in r.violations if vclass(v) == target] or r.violations
+        vs = [v for v in r.violations if vclass(v) == target]
+    if not vs:
+        raise Flaky("violation %s found at index %s did not recur when the same case was executed again: a source of nondeterminism is not owned by the simulator (library or harness)" % (list(target), case.get("_meta", {}).get("index")))
     return small, vs[0], r, ntests
 
 
